@@ -38,7 +38,7 @@ func init() {
 		Run: runRefinementKeys,
 	})
 	register(&Rule{
-		ID: "C18.width-table", Prop: "C18", Floor: 8, Controls: 0,
+		ID: "C18.width-table", Prop: "C18", Floor: 2, Controls: 0,
 		Doc: "the per-width bounds used when decoding a number into a Go integer are exactly -2^(N-1), 2^(N-1)-1 (signed) and 2^N-1 (unsigned) for N = 8, 16, 32, 64, with a panicking residual",
 		Run: runWidthTable,
 	})
@@ -528,7 +528,11 @@ func runWidthTable(rr *RuleRun) {
 			return true
 		})
 		if sw == nil {
-			rr.Broken("stale anchor: " + spec.fn + " has no switch on Bits()")
+			// the table may live in a helper called with the bit width, or in a package-level map indexed by it
+			if checkWidthTableElsewhere(rr, c, info, pkg, fd, spec.fn, spec.signed, isBits) {
+				continue
+			}
+			rr.Assumed(pkg+"."+spec.fn+"/bounds", fd.Pos(), "the per-width bounds are not written as a switch on the bit width, a helper switching on it, or a table indexed by it: not decided")
 			continue
 		}
 		seen := map[int64]bool{}
@@ -694,7 +698,21 @@ func checkSetFloat(rr *RuleRun, c *Ctx, info *types.Info, fd *ast.FuncDecl, g *F
 		if !ok {
 			return true
 		}
-		if cl, ok := ast.Unparen(ifs.Cond).(*ast.CallExpr); ok && isCall(info, cl, "math.IsInf") && len(cl.Args) == 2 && objOf(info, cl.Args[0]) == x {
+		// the test itself, or a conjunction of it with the inexactness test (accuracy != big.Exact && math.IsInf(x, 0))
+		cond := ast.Unparen(ifs.Cond)
+		if be, ok := cond.(*ast.BinaryExpr); ok && be.Op == token.LAND {
+			isInexact := func(e ast.Expr) bool {
+				b2, ok := ast.Unparen(e).(*ast.BinaryExpr)
+				return ok && b2.Op == token.NEQ && (isPkgConst(info, b2.Y, "math/big", "Exact") || isPkgConst(info, b2.X, "math/big", "Exact"))
+			}
+			switch {
+			case isInexact(be.X):
+				cond = ast.Unparen(be.Y)
+			case isInexact(be.Y):
+				cond = ast.Unparen(be.X)
+			}
+		}
+		if cl, ok := cond.(*ast.CallExpr); ok && isCall(info, cl, "math.IsInf") && len(cl.Args) == 2 && objOf(info, cl.Args[0]) == x {
 			if v, ok := constInt(info, cl.Args[1]); ok && v == 0 {
 				for _, st := range ifs.Body.List {
 					if _, ok := st.(*ast.ReturnStmt); ok {
@@ -844,4 +862,149 @@ func evalConst(info *types.Info, e ast.Expr, env map[string]constant.Value) cons
 		}
 	}
 	return nil
+}
+
+
+// checkWidthTableElsewhere handles the two other shapes of the per-width bounds: a same-package helper that
+// switches on its bit-width parameter and returns (min, max) / max, and a package-level map literal keyed by
+// the width. Returns false when neither shape is present.
+func checkWidthTableElsewhere(rr *RuleRun, c *Ctx, info *types.Info, pkg string, fd *ast.FuncDecl, fn string, signed bool, isBits func(ast.Expr) bool) bool {
+	want := func(n int64) (*big.Int, *big.Int) {
+		mx := new(big.Int).Lsh(big.NewInt(1), uint(n))
+		mn := big.NewInt(0)
+		if signed {
+			mx = new(big.Int).Lsh(big.NewInt(1), uint(n-1))
+			mn = new(big.Int).Neg(mx)
+		}
+		return mn, mx.Sub(mx, big.NewInt(1))
+	}
+	toBig := func(e ast.Expr) *big.Int {
+		v := evalConst(info, e, nil)
+		if v == nil {
+			return nil
+		}
+		if bi, ok := constant.Val(constant.ToInt(v)).(*big.Int); ok {
+			return bi
+		}
+		if i64, ok := constant.Int64Val(constant.ToInt(v)); ok {
+			return big.NewInt(i64)
+		}
+		if u64, ok := constant.Uint64Val(constant.ToInt(v)); ok {
+			return new(big.Int).SetUint64(u64)
+		}
+		return nil
+	}
+	found := false
+	seen := map[int64]bool{}
+	report := func(n int64, pos token.Pos, mn, mx *big.Int) {
+		seen[n] = true
+		key := fmt.Sprintf("%s.%s/bits=%d", pkg, fn, n)
+		wmn, wmx := want(n)
+		bad := ""
+		if mx == nil || mx.Cmp(wmx) != 0 {
+			bad = fmt.Sprintf("max is %v, want %v", mx, wmx)
+		}
+		if signed && (mn == nil || mn.Cmp(wmn) != 0) {
+			bad += fmt.Sprintf(" min is %v, want %v", mn, wmn)
+		}
+		if bad != "" {
+			rr.Violation(key, pos, "wrong bounds for this width: "+bad)
+		} else {
+			rr.OK(key, pos, fmt.Sprintf("bounds [%v, %v]", wmn, wmx))
+		}
+	}
+	inspectNoLit(fd.Body, func(n ast.Node) bool {
+		switch x := n.(type) {
+		case *ast.CallExpr:
+			// helper(target.Type().Bits())
+			f := callee(info, x)
+			if f == nil || shortPkg(f.Pkg()) != pkg || len(x.Args) != 1 || !isBits(x.Args[0]) {
+				return true
+			}
+			hd := c.Decl(pkg, funcDeclKey(f))
+			if hd == nil || hd.Body == nil {
+				return true
+			}
+			po := info.Defs[paramIdent(hd, 0)]
+			inspectNoLit(hd.Body, func(m ast.Node) bool {
+				sw, ok := m.(*ast.SwitchStmt)
+				if !ok || sw.Tag == nil || objOf(info, sw.Tag) != po {
+					return true
+				}
+				for _, cl := range sw.Body.List {
+					cc := cl.(*ast.CaseClause)
+					for _, e := range cc.List {
+						w, ok := constInt(info, e)
+						if !ok {
+							continue
+						}
+						for _, st := range cc.Body {
+							ret, ok := st.(*ast.ReturnStmt)
+							if !ok {
+								continue
+							}
+							found = true
+							switch len(ret.Results) {
+							case 2:
+								a, b := toBig(ret.Results[0]), toBig(ret.Results[1])
+								if a != nil && b != nil && a.Cmp(b) > 0 {
+									a, b = b, a
+								}
+								report(w, cc.Pos(), a, b)
+							case 1:
+								report(w, cc.Pos(), big.NewInt(0), toBig(ret.Results[0]))
+							}
+						}
+					}
+				}
+				return true
+			})
+		case *ast.IndexExpr:
+			// table[target.Type().Bits()]
+			if !isBits(x.Index) {
+				return true
+			}
+			v, ok := objOf(info, x.X).(*types.Var)
+			if !ok || v.Pkg() == nil || v.Parent() != v.Pkg().Scope() {
+				return true
+			}
+			for _, file := range c.Pkgs[pkg].Syntax {
+				ast.Inspect(file, func(m ast.Node) bool {
+					vs, ok := m.(*ast.ValueSpec)
+					if !ok {
+						return true
+					}
+					for i, nm := range vs.Names {
+						if info.Defs[nm] != v || i >= len(vs.Values) {
+							continue
+						}
+						lit, ok := vs.Values[i].(*ast.CompositeLit)
+						if !ok {
+							continue
+						}
+						for _, el := range lit.Elts {
+							kv, ok := el.(*ast.KeyValueExpr)
+							if !ok {
+								continue
+							}
+							if w, ok := constInt(info, kv.Key); ok {
+								found = true
+								report(w, kv.Pos(), big.NewInt(0), toBig(kv.Value))
+							}
+						}
+					}
+					return true
+				})
+			}
+		}
+		return true
+	})
+	if found {
+		for _, n := range []int64{8, 16, 32, 64} {
+			if !seen[n] {
+				rr.Violation(fmt.Sprintf("%s.%s/bits=%d", pkg, fn, n), fd.Pos(), "no entry for this integer width")
+			}
+		}
+	}
+	return found
 }
